@@ -103,10 +103,12 @@ def contribution(st, tid, snapA, k, working, auto_flag, res=None):
     return total
 
 
-def finish_deps_ok(st, tid, T_prev, started_prev):
-    """FF predecessors FINISHED and SF predecessors started, evaluated on the previous recorded state."""
+def finish_deps_ok(st, tid, T_prev, started_prev, T_now=None):
+    """FF predecessors FINISHED - by the previous recorded state or in this very update (the finish check is repeated until
+    nothing changes, so a task whose FF predecessor finishes now finishes now as well) - and SF predecessors started by
+    the previous recorded state (starting happens after the update)."""
     for (p, k) in st.preds[tid]:
-        if k == G.FF and T_prev[p][0] != FINISHED:
+        if k == G.FF and T_prev[p][0] != FINISHED and not (T_now is not None and T_now[p][0] == FINISHED):
             return False
         if k == G.SF and not started_prev[p]:
             return False
@@ -174,7 +176,7 @@ def check_trace(res, tr, clause_prefix="C02"):
                                 "remaining of %s changed from %r to %r during the update of step %d without finishing"
                                 % (tid, prem, urem, k), k)
                     if ps == WORKING and prem < TOL and us != FINISHED:
-                        if finish_deps_ok(st, tid, prevR, started_prev):
+                        if finish_deps_ok(st, tid, prevR, started_prev, UT):
                             kinds = sorted(set(G.KIND_NAME[kk] for (_, kk) in st.preds[tid] if kk in (G.FF, G.SF)))
                             tag = "+".join(kinds) if kinds else "nodep"
                             if sf_pred_finished(st, tid, prevR):
